@@ -1,6 +1,7 @@
 package c11
 
 import (
+	"bytes"
 	"fmt"
 	"strings"
 	"testing"
@@ -271,6 +272,19 @@ func check(c *pbt.Ctx, cs Case) {
 	}
 	if d := orderOK(cs.V, got, cs.Src, cs.U); d != "" {
 		c.Failf("wrong-order", "%s", d)
+	}
+	// the returned bytes stay intact while a value of the same shape with other text is cut
+	keep := append([]byte(nil), out...)
+	other := cs.V.Clone()
+	tm.Walk(other, func(_ []tm.Step, n *tm.Value, _ *tm.Value) {
+		if n.K == tm.STRING {
+			n.S = bytes.Repeat([]byte{'Z'}, len(n.S))
+		}
+	})
+	c.Step("a second MarshalTo on another value; the first result must not change")
+	c.Protect("", func() { _, _ = generic.NewValue(from, tm.Encode(other)).MarshalTo(to, opts) })
+	if !bytes.Equal(out, keep) {
+		c.Failf("result-overwritten", "the bytes returned by MarshalTo (%d) changed during a later call", len(out))
 	}
 	if tm.Depth(cs.V) >= 2 {
 		c.NonTrivial()
